@@ -1,6 +1,6 @@
 (* C05 - a command behaves the same wherever it is hosted.  Statements only. *)
 From Coq Require Import List Arith Bool.
-From Crux Require Import Rt.Lang Rt.Rt Rt.Host Rt.Check Rt.Frame Rt.Props.
+From Crux Require Import Rt.Lang Rt.Rt Rt.Host Rt.Check Rt.Frame Rt.Props Rt.Chain.
 Import ListNotations.
 
 (* Full statement (kept visible): for every command c, every wrapper context W built from the
@@ -20,6 +20,22 @@ Theorem C05_wake_forwards_partial : forall f c s g H w',
   wake (S f) (WCmd c s g) H =
   wake f w' (ucmd c (set_atomic None) (set_woken g (if c_alive (gcmd c H) then ucmd c (fun cm => set_ready (c_ready cm ++ [s]) cm) H else H))).
 Proof. intros f c s g H w' E. unfold wake; fold wake. rewrite E. reflexivity. Qed.
+
+(* No wake-up is lost between layers, at any nesting depth: when every host on the path from a task up
+   to the executor has its waker registered (chain; poll_next registers it before it settles - second
+   theorem), waking the task puts the hosting executor task into the executor's ready queue in the same
+   call, for every heap and every depth below the fuel. *)
+Theorem C05_wake_reaches_executor : forall l H w q fuel,
+  chain H w l q -> length l < fuel -> xready (wake fuel w H) = xready H ++ [q].
+Proof. exact wake_reaches_executor. Qed.
+Theorem C05_poll_next_registers_first : forall F cid w H,
+  rpoll_next (step_funs F) cid w H = poll_next_body F cid w H /\
+  c_atomic (gcmd cid (ucmd cid (set_atomic (Some w)) H)) = Some w.
+Proof. exact poll_next_registers_first. Qed.
+Theorem C05_wake_queues_task : forall H c s g w' f,
+  c_atomic (gcmd c H) = Some w' -> c_alive (gcmd c H) = true ->
+  exists H2, wake (S f) (WCmd c s g) H = wake f w' H2 /\ In s (c_ready (gcmd c H2)) /\ getd false g (woken H2) = true.
+Proof. exact wake_queues_task. Qed.
 
 (* hosting never touches abort bookkeeping of any existing command (frame theorem) *)
 Theorem C05_hosting_frame : forall fuel cid w H r H',
